@@ -9,7 +9,7 @@ Z3 = 'z3-new'
 
 def claims(tier):
     q = tier == 'quick'
-    c = [('inv3', 0, 0), ('inv4', 0, 0), ('detmul3', 0, 0), ('detmul4', 0, 0), ('solve', 2, 0), ('solve', 3, 0), ('solvediv', 2, 0), ('solvediv', 2, 1), ('solvediv', 3, 0), ('solvediv', 3, 1), ('solvediv', 3, 2), ('lsq', 3, 2), ('quat', 0, 0)]
+    c = [('inv3', 0, 0), ('inv3g', 0, 0), ('inv4', 0, 0), ('detmul3', 0, 0), ('detmul4', 0, 0), ('solve', 2, 0), ('solve', 3, 0), ('solvediv', 2, 0), ('solvediv', 2, 1), ('solvediv', 3, 0), ('solvediv', 3, 1), ('solvediv', 3, 2), ('lsq', 3, 2), ('quat', 0, 0)]
     if not q:
         c += [('lsq', 4, 2), ('quatmat', 0, 0)]      # solve n=4 and lsq 4x3 do not finish (z3 nlsat > 20 min per pivot path): outside the claim
     only = os.environ.get('C20_CLAIMS')          # development aid: restrict to e.g. 'solve:4:0,quatmat:0:0'
